@@ -248,7 +248,7 @@ func HugeStep(r *rand.Rand) KeySet {
 // LongTails: 2..8 keys whose tails behind the last branch are long (255..70000 bytes: stored leaf
 // prefixes at and beyond the 8-bit and 16-bit width boundaries), some keys being prefixes of others.
 // hugeTails: tails of 32..70 KiB (the model's select over the position bitmap walks bit by bit).
-var hugeTails = false
+var hugeTails = true
 
 func LongTails(r *rand.Rand) KeySet {
 	m := map[string]struct{}{}
@@ -273,8 +273,47 @@ func LongTails(r *rand.Rand) KeySet {
 	return KeySet{uniqSorted(m), "longtails"}
 }
 
-// Any picks a shape class at random; sizes scale with `size` (max keys).
+// ExactCount: exactly 2^k - 1, 2^k or 2^k + 1 random keys (k = 6..10, capped by size): leaf and node
+// counts that sit on a word / block boundary of the leaf bitmaps and rank indexes.
+func ExactCount(r *rand.Rand, size int) KeySet {
+	var cands []int
+	for k := uint(6); k <= 10; k++ {
+		for d := -1; d <= 1; d++ {
+			if n := (1 << k) + d; n <= size+1 {
+				cands = append(cands, n)
+			}
+		}
+	}
+	if len(cands) == 0 {
+		return Random(r, size, 8)
+	}
+	n := cands[r.Intn(len(cands))]
+	m := map[string]struct{}{}
+	al := alphabets[r.Intn(len(alphabets))]
+	for tries := 0; len(m) < n; tries++ {
+		if tries > 20*n {
+			al = alphabets[0] // (a tiny alphabet has too few short strings)
+		}
+		m[randStr(r, al, 1, 12)] = struct{}{}
+	}
+	return KeySet{uniqSorted(m), "exactcount"}
+}
+
+// Any picks a shape class at random; sizes scale with `size` (max keys).  One set in twelve also
+// gets the empty key "" as its first key (an indexed key that ends at the root).
 func Any(r *rand.Rand, size int) KeySet {
+	ks := anyClass(r, size)
+	if r.Intn(12) == 0 && (len(ks.Keys) == 0 || ks.Keys[0] != "") {
+		ks.Keys = append([]string{""}, ks.Keys...)
+		ks.Class += "+emptykey"
+	}
+	return ks
+}
+
+func anyClass(r *rand.Rand, size int) KeySet {
+	if size >= 64 && r.Intn(20) == 0 {
+		return ExactCount(r, size)
+	}
 	if size >= 20 {
 		switch r.Intn(60) {
 		case 0, 1:
@@ -316,7 +355,8 @@ func Any(r *rand.Rand, size int) KeySet {
 	case 5:
 		return Regular(r, size)
 	case 6:
-		return LongSteps(r, size/4+1, 40)
+		// single-branch runs up to 40 bytes, sometimes around 128 / 256 / 512 bytes
+		return LongSteps(r, size/4+1, []int{40, 40, 40, 130, 260, 520}[r.Intn(6)])
 	case 7:
 		return PrefixChains(r, size)
 	default:
@@ -411,9 +451,14 @@ func ValueRuns(r *rand.Rand, n int) []int {
 	run := 0
 	i := 0
 	mode := r.Intn(4)
+	if n >= 130 && r.Intn(5) == 0 {
+		mode = 4 // runs of exactly 63..65 / 127..129 keys (a run as long as a bitmap word, or two)
+	}
 	for i < n {
 		var l int
 		switch mode {
+		case 4:
+			l = []int{63, 64, 65, 127, 128, 129, 1, 2}[r.Intn(8)]
 		case 0:
 			l = 1
 		case 1:
